@@ -43,7 +43,10 @@ def save(outf, obj):
         outf = open(outf, 'wb')
         close = True
 
-    outf.write(yaml.dump(obj, default_flow_style=True).encode())
+    # (sort_keys=False: a per-channel dictionary keeps the order it was
+    # given in, which is the order in which a model numbers its parameters)
+    outf.write(yaml.dump(obj, default_flow_style=True,
+                         sort_keys=False).encode())
     if close:
         outf.close()
 
@@ -100,8 +103,10 @@ yaml.add_representer(tuple, tuple_representer)
 
 # represent numpy types as things that will print more cleanly
 def complex_representer(dumper, data):
-    return dumper.represent_scalar('!complex', repr(data.tolist()))
+    return dumper.represent_scalar('!complex', repr(complex(data)))
 yaml.add_representer(np.complex128, complex_representer)
+yaml.add_representer(complex, complex_representer)
+yaml.add_multi_representer(np.complexfloating, complex_representer)
 def complex_constructor(loader, node):
     return complex(node.value)
 for loader in YAMLLOADERS:
@@ -115,6 +120,14 @@ def numpy_int_representer(dumper, data):
     return dumper.represent_int(int(data))
 yaml.add_representer(np.int64, numpy_int_representer)
 yaml.add_representer(np.int32, numpy_int_representer)
+
+# every other NumPy scalar kind (float32, int16, uint8, bool_, ...): written
+# through PyYAML's generic object representer they are refused by the loaders
+def numpy_bool_representer(dumper, data):
+    return dumper.represent_bool(bool(data))
+yaml.add_multi_representer(np.floating, numpy_float_representer)
+yaml.add_multi_representer(np.integer, numpy_int_representer)
+yaml.add_multi_representer(np.bool_, numpy_bool_representer)
 
 
 # numpy ufuncs can no longer be pickled as of numpy 1.20
